@@ -192,3 +192,20 @@ func (d *dumper) val(v reflect.Value, depth int) {
 		d.b.WriteString("?" + name)
 	}
 }
+
+// Field returns the (unexported) field name of the struct that obj points to,
+// made readable.
+func Field(obj any, name string) reflect.Value {
+	v := reflect.ValueOf(obj)
+	for v.Kind() == reflect.Pointer || v.Kind() == reflect.Interface {
+		v = v.Elem()
+	}
+	if v.Kind() != reflect.Struct {
+		return reflect.Value{}
+	}
+	f := v.FieldByName(name)
+	if !f.IsValid() {
+		return f
+	}
+	return accessible(f)
+}
